@@ -401,6 +401,7 @@ def simple_expect(docs, name):
         raise Unsupported("doc kind")
 
     depth = [0]
+    doc_state = {name: "busy"}
 
     def target(cur, text):
         opt = text.endswith("?")
@@ -429,6 +430,20 @@ def simple_expect(docs, name):
                 raise Unsupported("cross target doc kind")
             if not _plain_tree(root) and ("__include" in root or "__patch" in root or not keys):
                 raise Unsupported("cross target doc root not plain")
+            # a directive ANYWHERE in the other document is resolved when its root is entered: if one of them is outside this
+            # evaluator (a missing target, say) the whole compilation may fail or go best-effort — nothing is claimed then
+            if G.has_directive(root):
+                st_ = doc_state.get(doc)
+                if st_ is None:
+                    doc_state[doc] = "busy"
+                    try:
+                        ev(doc, root, True)
+                        doc_state[doc] = "ok"
+                    except Unsupported:
+                        doc_state[doc] = "no"
+                        raise
+                elif st_ != "ok":
+                    raise Unsupported("other document outside the fragment (or cyclic)")
         else:
             if not isinstance(root, dict) or "__include" in root or "__patch" in root or not keys:
                 raise Unsupported("local root")
